@@ -455,6 +455,10 @@ def badarg_targets():
         ("disjoint", ("D", (S(_sq(2, -3, 0)), S(_sq(1, 3, 0))))),
         ("jordan", ("J", _sq(2))),
         ("circle", S(_circle(1.0, 0.0, 0.5, 4))),
+        # float points before rational ones (a float circle with a rational square hole; a
+        # polygon given with mixed float / int vertices keeps both kinds of Point2D)
+        ("float-circle-rational-hole", ("C", (S(_circle(3.0, 0.0, 0.0, 4)), S(_sq(1, rev=True))))),
+        ("mixed-polygon", S(gen.poly_chain([(0.5, 1.25), (F(3), F(0)), (F(2), F(2))]))),
     ]
 
 
